@@ -206,10 +206,13 @@ def apply_op(m, o):
         elif t == "comp":
             m.request_output_for_compartments(name, list(r["names"]), r.get("filt") or None, save_results=save)
         elif t == "agg":
-            m.request_aggregate_output(name, list(r["sources"]), save_results=save)
+            # (with "objs": the sources handed over as DerivedOutput objects instead of names)
+            srcs_ = [DerivedOutput(s_) for s_ in r["sources"]] if r.get("objs") else list(r["sources"])
+            m.request_aggregate_output(name, srcs_, save_results=save)
         elif t == "cum":
             st = r.get("start")
-            m.request_cumulative_output(name, r["source"], start_time=None if st is None else num(st), save_results=save)
+            m.request_cumulative_output(name, DerivedOutput(r["source"]) if r.get("objs") else r["source"],
+                                        start_time=None if st is None else num(st), save_results=save)
         elif t == "func":
             srcs = [DerivedOutput(s) for s in r["sources"]]
             if r.get("wrap"):
